@@ -4,6 +4,18 @@ import json, os, sys
 HERE = os.path.dirname(os.path.dirname(os.path.abspath(__file__)))
 
 CHECKS = {
+ "C01": dict(
+   level="exploration",
+   text="Invariant at quiescent points: after every step of seeded histories of public operations (45 operation kinds incl. failing forms, nested contexts, copy/deepcopy/pickle/merge, glpk<->glpk_exact) the raw GLPK problem is read back with swiglpk and compared with the FBA problem implied by the Python-side data plus a ledger of explicit user additions; sparse histories (observed only at the end) cover optlang's lazy update queue; native aborts are attributed to the running operation through a journal.",
+   note="Trusted: the observer (swiglpk read-back) and the S2 comparison; columns/rows matched through public accessors; tolerance 1e-12 relative; +-DBL_MAX treated as infinite. Sampled histories, not exhaustive.",
+   technique="runtime invariant monitor over seeded operation histories (raw solver read-back)",
+   ref="DESIGN.md §4 C01"),
+ "C03": dict(
+   level="fault_enumeration",
+   text="Invariant at a hook: Model.__enter__/__exit__ are wrapped; a whole-state snapshot (content by id, cross references, raw GLPK problem) taken at every __enter__ is compared with the state after the matching __exit__, for blocks of documented-reversible operations in 1-3 nested contexts that end normally, by an exception between operations, or by an operation raising by itself. Failing blocks are minimised to the triggering operation.",
+   note="Trusted: snapshot/diff code; list order ignored as the property allows; floats compared to 1e-12 relative. Fault points: between operations and failing operations, not asynchronous interruption inside an operation.",
+   technique="runtime invariant at context enter/exit hooks with fault workloads",
+   ref="DESIGN.md §4 C03"),
  "C15": dict(
    level="fault_enumeration",
    text="Reference-model monitor in lock-step with the real DictList: bounded-exhaustive operation sequences (every index in [-n-2,n+1], every slice, every failing argument position) plus seeded random long sequences; coherence, list-semantics equality and unchanged-on-raise judged after every step. Exhaustive within the stated bounds, sampled beyond.",
